@@ -335,7 +335,9 @@ func TestC09(t *testing.T) {
 		}
 		kvh.SetInFlight(&kvh.InFlight{Property: "C09", Case: func() any { return c }})
 		defer kvh.SetInFlight(nil)
+		kvh.PersistCase("C09", c)
 		feat, f := runC09(c)
+		kvh.ClearPersisted("C09")
 		if f != nil {
 			report(t, st, c, f)
 		}
